@@ -87,10 +87,10 @@ PROPERTIES = {
         assumptions=["the number of inner results is below isize::MAX", "tuple full-handle types (dataset, item) order lexicographically like the single handle type the unit is instantiated at"],
     ),
     'C12': dict(
-        units=['u_utf8', 'u_subtext', 'u_posidx'],
+        units=['u_utf8', 'u_subtext', 'u_subtext2', 'u_posidx'],
         finders=['find_utf8'],
         level_text="Conditional claim: deductive proof (Verus/Z3) over the real TextResource::utf8byte and utf8byte_to_charpos, with UTF-8 decoding abstracted into a trusted codepoint<->byte map of the text: for EVERY content of the position index and byte2charmap that satisfies the index invariant (each entry carries the true byte offset of its position), utf8byte(p) returns exactly the byte offset of p for 0 <= p <= length and an error beyond, and utf8byte_to_charpos(b) returns exactly the position whose offset is b and an error for any other byte (inside a character, beyond the text). Since the postconditions mention only the text, the answers cannot depend on milestone interval, shrink-to-fit or existing annotations; create_milestones and the index insertion callback (u_posidx) are proved to preserve the invariant. Round trip = identity follows from the two contracts.",
-        level_note="Trusted: the abstract text model (char_indices / str::len / &text[b..] slicing at a boundary, as external_body helpers whose bodies are the original expressions), BTreeMap::range(..).next_back() (vx_last_below). Eight declared R-outline firings in two 45-line functions; the loop headers over char_indices().enumerate() are rewritten to loops over the trusted pair list. The relative variants on ResultTextSelection (src/api/text.rs) are proved to translate coordinates exactly (u_subtext) over the resource contracts; the identical impl for ResultItem<TextSelection> and subslice_utf8_offset (pointer arithmetic) are trusted.",
+        level_note="Trusted: the abstract text model (char_indices / str::len / &text[b..] slicing at a boundary, as external_body helpers whose bodies are the original expressions), BTreeMap::range(..).next_back() (vx_last_below). Eight declared R-outline firings in two 45-line functions; the loop headers over char_indices().enumerate() are rewritten to loops over the trusted pair list. The relative variants on ResultTextSelection and on ResultItem<TextSelection> (src/api/text.rs) are proved to translate coordinates exactly (u_subtext, u_subtext2) over the resource contracts; subslice_utf8_offset (pointer arithmetic) is trusted.",
         design_ref='DESIGN.md §7.10',
         explanation="exactness against an abstract map, for all index contents satisfying the invariant",
         assumptions=["UTF-8 decoding by std (char_indices) is correct", "Text::text() of a selection returns the slice between the byte offsets of its ends (assumed)"],
